@@ -143,6 +143,18 @@ theorem C18_dec_canonical_Round3 (counts : List Nat) (data : Bytes) (m : Round3)
     (h : decodeRound3 counts data = .ok m) : encodeRound3 counts m = .ok data ∧ m.WF counts :=
   encodeRound3_decode counts data m h
 
+/-- Round 1 is canonical AT THE DOCUMENTED SIZE: bytes of exactly that length
+that decode are the encoding of what they decode to.  (So every accepted
+non-canonical round-1 input is longer than documented: trailing bytes or a
+padded length prefix, the two exceptions below.)  The analogous statements for
+Round2 / GarblerSession / EvaluatorSession are not proved; the harness checks
+on every run that each accepted non-canonical input of any decoder is
+explained by one of the listed leniencies. -/
+theorem C18_dec_canonical_Round1_at_doc_len (c : Curve) (hc : c.WF) (data : Bytes) (m : Round1)
+    (h : decodeRound1 c data = .ok m) (hlen : data.length = 2 + 8 + 1 + c.name.length + 2 * c.byteLen) :
+    encodeRound1 c m = .ok data :=
+  encodeRound1_decode c hc data m h hlen
+
 /-- NEGATION WITNESS of "malformed bytes are rejected" for `DecodeRound1`:
 the encoding followed by ANY bytes decodes to the same payload. -/
 theorem C18_trailing_bytes_accepted_Round1 (c : Curve) (hc : c.WF) (m : Round1) (hm : m.WF c) (enc extra : Bytes)
